@@ -210,12 +210,13 @@ type LoopRec struct {
 }
 
 type Path struct {
-	Steps []Step
-	End   string // return, panic, fall, continue, break
-	Vals  []Term
-	Node  ast.Node
-	Why   string // non-empty: path contains an unsupported construct
-	Env   map[types.Object]Term
+	Steps   []Step
+	End     string // return, panic, fall, continue, break
+	Vals    []Term
+	Node    ast.Node
+	Why     string // non-empty: path contains an unsupported construct
+	Env     map[types.Object]Term
+	Inlined []*types.Func // declared functions whose bodies were inlined on this path
 }
 
 func (p *Path) Conds() []Cond {
@@ -257,6 +258,7 @@ type sxState struct {
 	stack []*types.Func
 	why   string
 	tsub  map[*types.TypeParam]types.Type // instantiation of type parameters of inlined generic helpers
+	inl   []*types.Func                   // declared functions inlined on the way here
 }
 
 func (s *sxState) bump() {
@@ -265,7 +267,7 @@ func (s *sxState) bump() {
 }
 
 func (s *sxState) clone() *sxState {
-	n := &sxState{env: make(map[types.Object]Term, len(s.env)), epoch: s.epoch, heap: s.heap, why: s.why, tsub: s.tsub}
+	n := &sxState{env: make(map[types.Object]Term, len(s.env)), epoch: s.epoch, heap: s.heap, why: s.why, tsub: s.tsub, inl: append([]*types.Func(nil), s.inl...)}
 	for k, v := range s.env {
 		n.env[k] = v
 	}
@@ -288,13 +290,13 @@ type SX struct {
 	ForceStep func(*types.Func) bool // calls recorded as effect steps even when pure (ordering matters to the rule)
 	// InlineStaticSelf: also inline exported methods of the container types when they are called on the bare receiver variable
 	InlineStaticSelf bool
-	addrTaken map[types.Object]bool
-	loopID    int
-	fieldVars  map[string]*types.Var // scalar replacement: (struct made on this path, field) -> pseudo local
-	fieldInits map[*types.Var]Term   // its initial value
-	instArgs  []types.Type // type arguments of the generic function being inlined through a function value
-	fresh     int
-	budget    int
+	addrTaken        map[types.Object]bool
+	loopID           int
+	fieldVars        map[string]*types.Var // scalar replacement: (struct made on this path, field) -> pseudo local
+	fieldInits       map[*types.Var]Term   // its initial value
+	instArgs         []types.Type          // type arguments of the generic function being inlined through a function value
+	fresh            int
+	budget           int
 }
 
 func (c *Ctx) NewSX() *SX {
@@ -355,7 +357,7 @@ func (x *SX) finish(outs []outcome) []*Path {
 		if end == "" {
 			end = "fall"
 		}
-		paths = append(paths, &Path{Steps: o.st.steps, End: end, Vals: o.vals, Node: o.node, Why: o.st.why, Env: o.st.env})
+		paths = append(paths, &Path{Steps: o.st.steps, End: end, Vals: o.vals, Node: o.node, Why: o.st.why, Env: o.st.env, Inlined: o.st.inl})
 	}
 	return paths
 }
@@ -2153,6 +2155,7 @@ func (x *SX) inline(ft *ast.FuncType, body *ast.BlockStmt, recvObj types.Object,
 	}
 	if f != nil {
 		st.stack = append(st.stack, f)
+		st.inl = append(st.inl, f)
 	} else {
 		st.stack = append(st.stack, nil)
 	}
